@@ -494,7 +494,7 @@ def run_case(case, p=None):
 # ------------------------------------------------------------------------------------------------
 # enumeration: stages, units
 # ------------------------------------------------------------------------------------------------
-SEMANTIC_DECOS = ("sigdef", "pfdef", "bound-root", "bound-upstream", "shared-default")
+SEMANTIC_DECOS = ("sigdef", "pfdef", "bound-root", "bound-upstream", "shared-default", "sigdef-on-produced")
 RENAMES = ("rename-param", "rename-output")
 
 
